@@ -9,6 +9,10 @@ binding: code -> spec, three ways, all validated by Trace_VEcu (TLC), mode "A":
          (2) the real UDSClient.request() against the server in-process;
          (3) the real TCPUDSServerTransport.handle_client loop and the real TCPLinesTransport +
              UDSClient joined by in-memory streams.
+histories: besides the families of (mostly independent) requests, structured multi-step histories of the services
+         that keep state between requests, derived from the model: SecurityAccess over every ordered pair / triple of
+         the levels a session offers (in every session that offers one), consecutive DiagnosticSessionControl,
+         RoutineControl start/stop/results, RequestDownload/Upload-TransferData-Exit (see `stateful_histories`).
 """
 
 from __future__ import annotations
@@ -60,6 +64,272 @@ def boundary(rnd: random.Random, m: C.Model) -> list[bytes]:
     return out
 
 
+# ------------------------------------------------------------------ structured multi-step histories
+# The families above are (mostly) independent requests.  The services below keep state BETWEEN requests -- or are
+# the ones an ECU keeps state for (pending seed, active session, running routine, open transfer) --, so they are also
+# asked in every short ORDER of their steps, derived from the model (`server.services`): what is offered in the active
+# session decides which levels / sessions are combined.  A history is a list of items; the state is only brought back
+# to the home session BETWEEN histories, never inside one.
+SID_IOC, SID_RD, SID_RU, SID_TD, SID_RTE = 0x2F, 0x34, 0x35, 0x36, 0x37
+History = list[C.Item]
+
+
+def key_for(level: int, how: str = "right", suppress: bool = False) -> Any:
+    """SendKey for seed level `level` (odd) computed from the seed handed out last: the reply to the preceding request
+    if that was a seed reply (whatever level it names), else the server's own bookkeeping.  how: right | wrong."""
+
+    def f(p: Any) -> bytes | None:
+        seed: bytes | None = None
+        r = getattr(p, "reply", None)
+        if r is not None and len(r) >= 2 and r[0] == E.SID_SA + 0x40 and r[1] % 2 == 1:
+            seed = bytes(r[2:])
+        else:
+            ls = p.last_seed()
+            if ls is not None:
+                seed = ls[1]
+        if how == "right":
+            if not seed:
+                return None  # a key has at least one byte; nothing to answer an empty / unknown seed with
+            key = seed
+        else:
+            key = bytes([(seed[0] if seed else 0) ^ 0xFF]) + (seed[1:] if seed else b"")
+        return bytes([E.SID_SA, (level + 1) | (0x80 if suppress else 0)]) + key
+
+    return f
+
+
+def seed_levels(m: C.Model, sess: int) -> list[int]:
+    return [x for x in (m.get(sess, {}).get(E.SID_SA) or []) if x % 2 == 1]
+
+
+def pick_levels(levels: list[int], k: int, rnd: random.Random) -> list[int]:
+    """At most k of the offered levels: the first ones, the last one and a random one in between."""
+    if len(levels) <= k:
+        return list(levels)
+    if k <= 2:
+        return sorted({levels[0], levels[-1]})[:max(k, 1)]
+    return sorted(set(levels[:k - 2]) | {levels[-1], rnd.choice(levels[k - 2:-1])})
+
+
+def sa_histories(m: C.Model, sess: int, rnd: random.Random, k_pairs: int, k_triples: int) -> list[History]:
+    """SecurityAccess: every ordered pair (A, B) -- A = B included -- of levels the session offers, with everything a
+    tester may do between the two seed requests (nothing, TesterPresent answered / suppressed, a key that is right /
+    wrong / for the other level / suppressed, another service, a level that is not offered, a session change, a reset,
+    a seed request with the suppress bit or a data record), and the ordered triples."""
+    here = m.get(sess, {})
+    offered = seed_levels(m, sess)
+    if not offered:
+        return []
+    levels = pick_levels(offered, k_pairs, rnd)
+    tp, tps, rd = bytes([E.SID_TP, 0x00]), bytes([E.SID_TP, 0x80]), bytes([E.SID_RDBI, 0xF1, 0x86])
+    unoffered = next(x for x in [0x7D, 0x6B, 0x05, 0x09] + list(range(1, 0x7E, 2)) if x not in offered)
+    resets = (here.get(E.SID_ER) or [])[:1]
+    plain = [s for s in sorted(here) if here[s] is None and s != E.SID_RDBI][:1]
+
+    def seed(lv: int, sup: bool = False, rec: bytes = b"") -> bytes:
+        return bytes([E.SID_SA, lv | (0x80 if sup else 0)]) + rec
+
+    out: list[History] = []
+    for a in levels:
+        for b in levels:
+            out += [
+                [seed(a), seed(b), key_for(b)],
+                [seed(a), tp, seed(b), key_for(b)],
+                [seed(a), tps, seed(b), key_for(b, "wrong")],
+                [seed(a, True), seed(b), key_for(b)],
+                [seed(a), seed(b, True), key_for(b)],
+                [seed(a, True), tps, seed(b, True), tp],
+                [seed(a), key_for(b), seed(b), key_for(b)],  # a key for another level than the one just asked
+                [seed(a), key_for(a, "wrong"), seed(b), key_for(b)],
+                [seed(a), key_for(a), seed(b), key_for(b), seed(a)],
+                [seed(a), key_for(a, suppress=True), seed(b), key_for(b, suppress=True), tp],
+                [seed(a), rd, seed(b), key_for(b)],
+                [seed(a, rec=b"\x01\x02"), seed(b), seed(a, rec=b"\x00")],
+                [seed(a), seed(unoffered), seed(b), key_for(b)],
+                [seed(a), bytes([E.SID_SA]), seed(b)],
+                [seed(a), bytes([E.SID_SA, a + 1]), seed(b), key_for(b)],
+            ]
+            for sid in plain:
+                out.append([seed(a), bytes([sid, 0x12, 0x34, 0x56]), seed(b)])
+            for sub in resets:
+                out.append([seed(a), bytes([E.SID_ER, sub]), seed(b), key_for(b)])
+            if sess in (here.get(E.SID_DSC) or []):
+                out.append([seed(a), bytes([E.SID_DSC, sess]), seed(b), key_for(b)])
+    tri = pick_levels(offered, k_triples, rnd)
+    if len(offered) >= 2:
+        for a in tri:
+            for b in tri:
+                for c in tri:
+                    if a == b == c:
+                        continue
+                    out += [[seed(a), seed(b), seed(c), key_for(c)],
+                            [seed(a), tp, seed(b), tps, seed(c), key_for(c, "wrong")],
+                            [seed(a), key_for(a), seed(b), key_for(b), seed(c), key_for(c), rd]]
+    # a seed left pending while the session changes: the levels of the session entered
+    for t in [x for x in (here.get(E.SID_DSC) or []) if x != sess and x in m][:3]:
+        for a in levels[:2]:
+            for b in pick_levels(seed_levels(m, t), 2, rnd):
+                out += [[seed(a), bytes([E.SID_DSC, t]), seed(b), key_for(b)],
+                        [seed(a), key_for(a), bytes([E.SID_DSC, t | 0x80]), seed(b), key_for(b)]]
+    return out
+
+
+def dsc_histories(m: C.Model, sess: int, k: int) -> list[History]:
+    """DiagnosticSessionControl: consecutive session changes along the offered transitions (t from the home session,
+    u from t), answered / suppressed, repeated, with TesterPresent or a reset between them; the session is read back."""
+    here = m.get(sess, {})
+    rd, tp = bytes([E.SID_RDBI, 0xF1, 0x86]), bytes([E.SID_TP, 0x00])
+    out: list[History] = []
+    for t in [x for x in (here.get(E.SID_DSC) or []) if x in m][:k]:
+        there = m[t]
+        for u in (there.get(E.SID_DSC) or [])[:k]:
+            out += [[bytes([E.SID_DSC, t]), bytes([E.SID_DSC, u]), rd],
+                    [bytes([E.SID_DSC, t]), tp, bytes([E.SID_DSC, u]), bytes([E.SID_DSC, t]), rd],
+                    [bytes([E.SID_DSC, t | 0x80]), bytes([E.SID_DSC, u | 0x80]), rd],
+                    [bytes([E.SID_DSC, t | 0x80]), bytes([E.SID_DSC, u]), bytes([E.SID_DSC, u]), rd]]
+        out.append([bytes([E.SID_DSC, t]), bytes([E.SID_DSC, t]), rd, bytes([E.SID_DSC, C.unoffered_session(m)]), rd])
+        for sub in (there.get(E.SID_ER) or [])[:2]:
+            out.append([bytes([E.SID_DSC, t]), bytes([E.SID_ER, sub]), rd, bytes([E.SID_DSC, t]), rd])
+    return out
+
+
+def rc_histories(m: C.Model, sess: int, rnd: random.Random, n_rids: int) -> list[History]:
+    """RoutineControl: start / stop / requestResults of one routine in every order a tester produces (twice, results
+    before start, stop after stop, with the suppress bit, with an option record), and two routines interleaved."""
+    if E.SID_RC not in m.get(sess, {}):
+        return []
+    rids = [0x0000, 0x0203, 0xFF00, 0xFF01][:max(1, n_rids - 2)] + [rnd.randrange(0x10000) for _ in range(2)]
+
+    def rc(sub: int, rid: int, sup: bool = False, rec: bytes = b"") -> bytes:
+        return bytes([E.SID_RC, sub | (0x80 if sup else 0), rid >> 8, rid & 0xFF]) + rec
+
+    out: list[History] = []
+    for i, r in enumerate(rids):
+        r2 = rids[(i + 1) % len(rids)]
+        out += [[rc(1, r), rc(1, r), rc(3, r), rc(2, r), rc(3, r), rc(2, r)],
+                [rc(3, r), rc(2, r), rc(1, r, True), rc(3, r), rc(2, r, True), rc(3, r, True), rc(1, r, rec=b"\x01")],
+                [rc(1, r), rc(1, r2), rc(3, r), rc(2, r2), rc(3, r2), rc(2, r)]]
+    return out
+
+
+def transfer_histories(m: C.Model, sess: int) -> list[History]:
+    """RequestDownload / RequestUpload - TransferData - RequestTransferExit, in and out of sequence (block counter
+    repeated / skipped / wrapped, exit without transfer, transfer after exit, a second request while one is open)."""
+    if not any(s in m.get(sess, {}) for s in (SID_RD, SID_RU, SID_TD, SID_RTE)):
+        return []
+    dl, ul = bytes([SID_RD, 0x00, 0x22, 0x10, 0x00, 0x00, 0x40]), bytes([SID_RU, 0x00, 0x22, 0x10, 0x00, 0x00, 0x40])
+    ex = bytes([SID_RTE])
+
+    def td(n: int, data: bytes = b"\xde\xad\xbe\xef") -> bytes:
+        return bytes([SID_TD, n & 0xFF]) + data
+
+    return [[dl, td(1), td(2), td(3), ex],
+            [dl, td(1), td(1), td(3), td(0), ex, td(1), ex],
+            [ex], [td(1)], [td(0xFF), td(0x00), td(0x01)],
+            [ul, td(1, b""), td(2, b""), ex],
+            [dl, dl, ex, ex], [dl, ul, td(1), ex], [ul, bytes([E.SID_TP, 0x00]), td(1, b""), ex + b"\x00"]]
+
+
+def sa_core_histories(m: C.Model, sess: int, rnd: random.Random, k: int) -> list[History]:
+    """The two shortest histories of every ordered pair of levels (seed A, [TesterPresent,] seed B, key B)."""
+    levels = pick_levels(seed_levels(m, sess), k, rnd)
+    return [[bytes([E.SID_SA, a])] + mid + [bytes([E.SID_SA, b]), key_for(b)]
+            for a in levels for b in levels for mid in ([], [bytes([E.SID_TP, 0x00])])]
+
+
+def some(rnd: random.Random, hists: list[History], n: int) -> list[History]:
+    return hists if len(hists) <= n else rnd.sample(hists, n)
+
+
+def stateful_histories(m: C.Model, sess: int, rnd: random.Random, *, main: bool, quick: bool) -> list[History]:
+    """main: one of the sessions the other families are run in; otherwise a session that is only visited because it
+    offers a stateful service (reduced set).  thorough: main sessions get every history over four levels and a
+    sample of those over eight, the other sessions every history over two levels (first / last) and a sample of those
+    over four.  quick: main sessions get every history over two levels and a sample of those over four; the other
+    sessions the shortest histories of every ordered pair of two levels and a sample of the rest."""
+    if not quick:
+        if main:
+            out = sa_histories(m, sess, rnd, 4, 3) + some(rnd, sa_histories(m, sess, rnd, 8, 4), 60)
+        else:
+            out = sa_histories(m, sess, rnd, 2, 2) + some(rnd, sa_histories(m, sess, rnd, 4, 3), 20)
+        out += dsc_histories(m, sess, 6 if main else 2) + rc_histories(m, sess, rnd, 6 if main else 3)
+        return out + transfer_histories(m, sess)
+    if main:
+        out = sa_histories(m, sess, rnd, 2, 2) + some(rnd, sa_histories(m, sess, rnd, 4, 3), 30)
+        out += some(rnd, dsc_histories(m, sess, 3), 12) + some(rnd, rc_histories(m, sess, rnd, 4), 6)
+        return out + transfer_histories(m, sess)
+    out = sa_core_histories(m, sess, rnd, 2) + some(rnd, sa_histories(m, sess, rnd, 2, 2), 8)
+    return out + some(rnd, rc_histories(m, sess, rnd, 2), 2) + some(rnd, transfer_histories(m, sess), 3)
+
+
+def stateful_sessions(m: C.Model, main: list[int], k: int) -> list[int]:
+    """Every session that offers at least one SecurityAccess level, then (up to k) sessions that are only of interest
+    for RoutineControl / the transfer services -- without the main sessions, reachable ones only."""
+    sa = [s for s in sorted(m) if s not in main and seed_levels(m, s)]
+    rest = [s for s in sorted(m) if s not in main and s not in sa
+            and any(x in m[s] for x in (E.SID_RC, SID_RD, SID_RU, SID_TD, SID_RTE))]
+    return [s for s in sa + rest[:k] if E.nav_path(m, 1, s) is not None]
+
+
+async def go_home(m: C.Model, cur: int, home: int, send: Any) -> None:
+    """DiagnosticSessionControl requests (part of the recorded history) that lead back to the home session."""
+    if cur == home:
+        return
+    path = E.nav_path(m, cur, home)
+    if path is None:
+        path = [1] + (E.nav_path(m, 1, home) or [])
+    for t in path[:5]:
+        await send(bytes([E.SID_DSC, t]))
+
+
+async def run_histories_direct(p: Any, m: C.Model, home: int, hists: list[History]) -> list[dict[str, Any]]:
+    steps: list[dict[str, Any]] = []
+
+    async def send(pdu: bytes) -> None:
+        st = await p.exchange(pdu)
+        st["a"] = E.client_verdict(p.reply, pdu)
+        steps.append(st)
+
+    for h in hists:
+        await go_home(m, p.state()[0], home, send)
+        for it in h:
+            pdu = it(p) if callable(it) else it
+            if pdu is not None:
+                await send(pdu)
+    return steps
+
+
+async def run_histories_client(p: Any, m: C.Model, home: int, hists: list[History], typed: bool) -> list[dict[str, Any]]:
+    steps: list[dict[str, Any]] = []
+
+    async def send(pdu: bytes) -> None:
+        steps.extend(await K.client_history(p, [pdu], typed=typed))
+
+    for h in hists:
+        await go_home(m, p.state()[0], home, send)
+        for it in h:
+            pdu = it(p) if callable(it) else it
+            if pdu is not None:
+                await send(pdu)
+    return steps
+
+
+def static_sa_histories(m: C.Model, sess: int, suppress: bool = True) -> list[bytes]:
+    """Seed-after-seed histories that need no reply to be built (for the paths on which all requests are fixed before
+    the first one is sent): the first two and the last level the session offers."""
+    lv = seed_levels(m, sess)
+    lv = lv if len(lv) <= 3 else lv[:2] + lv[-1:]
+    out: list[bytes] = []
+    for a in lv:
+        for b in lv:
+            out += [bytes([E.SID_SA, a]), bytes([E.SID_SA, b]), bytes([E.SID_SA, b + 1, 0xAA]),
+                    bytes([E.SID_SA, a]), bytes([E.SID_TP, 0x00]), bytes([E.SID_SA, b]), bytes([E.SID_RDBI, 0xF1, 0x86])]
+            if suppress:
+                out += [bytes([E.SID_SA, a | 0x80]), bytes([E.SID_SA, b]), bytes([E.SID_SA, a]), bytes([E.SID_TP, 0x80]),
+                        bytes([E.SID_SA, b]), bytes([E.SID_SA, b + 1])]
+    return out
+
+
 # ------------------------------------------------------------------ server mutants (binding self-test)
 def mutant_servers() -> dict[str, Any]:
     class HandlerRaises(srv.RandomUDSServer):  # one request kind whose handler raises
@@ -95,8 +365,9 @@ async def drive(tier: str, seed: int, corpus: E.Corpus, info: dict[str, Any], *,
                 small: bool = False) -> None:
     quick = tier == "quick"
     rnd = random.Random(seed + 1400)
+    rnd_h = random.Random(seed + 1402)  # the structured histories draw from their own stream
     seeds = range(0, 2) if small else (range(0, 3) if quick else range(0, 10))
-    counts = {"direct": 0, "client": 0, "tcp": 0, "run": 0}
+    counts = {"direct": 0, "direct-stateful": 0, "client": 0, "client-stateful": 0, "tcp": 0, "run": 0}
     models = []
     for params in (("mandatory", "dense") if small else E.PARAMS):
         for sd in (range(0, 1) if small else seeds):
@@ -140,6 +411,17 @@ async def drive(tier: str, seed: int, corpus: E.Corpus, info: dict[str, Any], *,
                 steps.append(st)
             counts["direct"] += len(steps)
             corpus.add(m=mi, B=E.ALL, mode="A", steps=steps, meta=dict(meta, origin="direct", home=sess))
+        # ---- (1b) structured multi-step histories of the stateful services, in every session that offers them
+        main = pick_sessions(m, 1 if quick else 3)
+        for sess in main + stateful_sessions(m, main, 1 if small else (2 if quick else 6)):
+            hists = stateful_histories(m, sess, rnd_h, main=sess in main, quick=quick)
+            if not hists:
+                continue
+            p.fresh(E.ALL)
+            steps = await run_histories_direct(p, m, sess, hists)
+            counts["direct-stateful"] += len(steps)
+            corpus.add(m=mi, B=E.ALL, mode="A", steps=steps,
+                       meta=dict(meta, origin="direct", home=sess, family="stateful"))
     info["counts"] = counts
     info["_models"] = models
 
@@ -148,6 +430,7 @@ def drive_client_and_tcp(tier: str, seed: int, corpus: E.Corpus, info: dict[str,
     """(2) and (3): the real client against the server, on the virtual-time loop."""
     quick = tier == "quick"
     rnd = random.Random(seed + 1401)
+    rnd_h = random.Random(seed + 1403)
     models = info.pop("_models")
     counts = info["counts"]
 
@@ -188,6 +471,32 @@ def drive_client_and_tcp(tier: str, seed: int, corpus: E.Corpus, info: dict[str,
         counts["client"] += len(steps)
         corpus.add(m=mi, B=E.ALL, mode="A", steps=steps, meta=dict(meta, origin="client"))
 
+        # ---- (2b) the structured multi-step histories through the real client (raw and typed requests): the default
+        # session and the first other session that offers two SecurityAccess levels (else one)
+        others = sorted((x for x in m if x != 1 and seed_levels(m, x) and E.nav_path(m, 1, x) is not None),
+                        key=lambda x: (len(seed_levels(m, x)) < 2, x))
+        for sess in [1] + others[:1]:
+            hists = sa_core_histories(m, sess, rnd_h, 2 if quick else 4)
+            hists += some(rnd_h, sa_histories(m, sess, rnd_h, 3, 3), 20 if quick else 100)
+            hists += some(rnd_h, dsc_histories(m, sess, 2), 4 if quick else 40)
+            hists += some(rnd_h, rc_histories(m, sess, rnd_h, 2), 2 if quick else 20)
+            hists += some(rnd_h, transfer_histories(m, sess), 2 if quick else 20)
+            if not hists:
+                continue
+
+            async def client_hist_part() -> list[dict[str, Any]]:
+                p = K.ReplyProbe(s)
+                out: list[dict[str, Any]] = []
+                for typed in (False, True):
+                    p.fresh(E.ALL)
+                    out.extend(await run_histories_client(p, m, sess, hists, typed))
+                return out
+
+            steps = vloop.run(client_hist_part())
+            counts["client-stateful"] += len(steps)
+            corpus.add(m=mi, B=E.ALL, mode="A", steps=steps,
+                       meta=dict(meta, origin="client", home=sess, family="stateful"))
+
         if True:
             async def tcp_part() -> list[dict[str, Any]]:
                 s.state = type(s.state)()
@@ -197,6 +506,7 @@ def drive_client_and_tcp(tier: str, seed: int, corpus: E.Corpus, info: dict[str,
                 pdus = [(it(p0) if callable(it) else it) for it in items]
                 pdus = [x for x in pdus if x is not None]
                 pdus += [bytes([0x22]) + bytes(4094), bytes([0x3E, 0x00])]
+                pdus += static_sa_histories(m, 1)
                 return await loop.history(pdus, typed=False)
 
             steps = vloop.run(tcp_part())
@@ -216,6 +526,7 @@ def drive_client_and_tcp(tier: str, seed: int, corpus: E.Corpus, info: dict[str,
             for n in sizes:
                 pdus_r += [(bytes([0x2E, 0xF1, 0x90]) + bytes((i * 7 + n) & 0xFF for i in range(n)))[:max(n, 1)],
                            bytes([0x3E, 0x00])]
+            pdus_r += static_sa_histories(m, 1, suppress=False)  # every request answered: no client timeout to wait for
             unpatched = srv.time
             srv.time = time.time  # real event loop: real clock (the constant harness clock is for the other paths)
             try:
